@@ -34,6 +34,10 @@ CHECKS = {
    text="MC_C15 instantiates Verify.tla (stack of frames) over every listed way a delegated sub-layout can be wrong x inner step sequences 1..3 x delegation depth 2 and 3; TLC proves OkOnlyIfNec with the recursive requirement (sub-layout signed by the authorised functionary it is filed under, unexpired, fully verified against its own sub-directory); replay compares the verdict and the returned summary link (first step's materials, last step's products / command / byproducts).",
    note='Trusted: TLC; ring for the primitives; the harness concretisation (builders, real keys, real files); abstraction: perfect signatures, injective key ids. Small scope stated in the evidence; clock pinned through the guarded hook.',
    tech='TLA+ spec Verify.tla model-checked with TLC; spec->impl replay through in_toto_verify on real directory trees; impl->spec trace validation (Trace_Verify.tla)'),
+ "C20": dict(cat="model_checking", ref="§4 C20, §3.5",
+   text="Pae.tla defines Pack and the decoding as a parser machine (one action per framing field). TLC proves RoundTrip (the machine run on Pack(t,p) returns exactly (t,p)), Injective (distinct pairs pack to distinct strings) and Total for every pair / every string inside the bounds; each case is replayed through the real pack / unpack (guarded re-export): packed bytes equal the specification's, unpack returns the pair, enumerated malformed strings give a pair or an error. Seeded random ASCII pairs are validated as traces against Trace_Pae.tla; binary payloads and Unicode types are round-tripped by the harness.",
+   note="Trusted: TLC, the guarded re-export (verif::pae_pack / pae_unpack call the private functions unchanged). Bounds: strings <= 3 over {space,'1','a'} plus lengths around the 1/2/3-digit boundaries; decode inputs <= 5 (quick) / 7 (thorough) over 7 framing characters; binary payloads sampled.",
+   tech="TLA+ spec Pae.tla (parser machine) model-checked with TLC; replay of every TLC case; trace validation (Trace_Pae.tla)"),
  "C03": dict(cat="model_checking", ref="§4 C03, §3.3",
    text="Rules.tla transcribes the in-toto specification's artifact-rule algorithm (functional form and a state machine with one Apply step per rule; TLC checks that both agree, that the queue only shrinks and that a rule only consumes artifacts its pattern / source prefix matches). TLC enumerates rule lists x item link states x referenced-step states; every scenario is run through the real rule engine and the verdict must equal the specification's; seeded random scenarios beyond the bounds (up to 4+4 rules, 6 paths, nested prefixes) are validated step by step (consumed set and remaining queue after every rule, hook in rulelib.rs) against Trace_Rules.tla.",
    note="Trusted: TLC, glob::Pattern (default options) as fnmatch, the harness builders. Inputs restricted to C03's own quantifier: normalised relative paths, portable glob syntax; '[' only in DISALLOW. Bounds: 3 paths, 57-rule alphabet, rule lists <= 2 in TLC (<= 4+4 in traces).",
